@@ -1,5 +1,5 @@
 """Assumed contracts of external dependencies (rewrite R3).  Every stub records its use in the evidence; each has a
-bounded validation against the real dependency in contracts/deps_validation (run with the property that uses it)."""
+bounded validation against the real dependency in contracts/deps_validation.py (the Cxx.dep_* obligations of the properties that use it)."""
 from __future__ import annotations
 
 import numpy as np
@@ -127,7 +127,7 @@ def hmean_stub(ctx, name="scipy.stats.hmean(a, axis=1) = n / sum(1/a_i) for posi
     return hmean
 
 
-def cv2_resize_area_stub(ctx, name="cv2.resize(src, (w, h), interpolation=INTER_AREA) with integer ratios: block mean (down-sampling) / repetition (up-sampling) per axis"):
+def cv2_resize_area_stub(ctx, name="cv2.resize(src, (w, h), interpolation=INTER_AREA) with integer ratios, no axis shrinking while the other grows: block mean (down-sampling) / repetition (up-sampling) per axis"):
     """Assumed contract of OpenCV's area interpolation for integer ratios (confirmed on OpenCV 4.11 by the bounded
     validation C03.dep_resize).  Non-integer ratios have no contract (=> Unsupported => obligation undecided)."""
     import cv2
@@ -142,6 +142,12 @@ def cv2_resize_area_stub(ctx, name="cv2.resize(src, (w, h), interpolation=INTER_
             raise Unsupported("cv2.resize stub: only INTER_AREA has an assumed contract")
         w, h = int(dsize[0]), int(dsize[1])
         out = src_a
+        if out.ndim == 3 and out.shape[2] == 1:
+            out = out[:, :, 0]                       # OpenCV returns a 2-D array for a single channel
+        # OpenCV's INTER_AREA is an area interpolation only if NO axis is enlarged; if one axis shrinks while the other grows it
+        # interpolates linearly along both (validated by C03.dep_resize): no contract for that regime
+        if (h < out.shape[0] and w > out.shape[1]) or (h > out.shape[0] and w < out.shape[1]):
+            raise Unsupported("cv2.resize stub: one axis shrinks while the other is enlarged - INTER_AREA is not an area interpolation there")
         for axis, new in ((0, h), (1, w)):
             old = out.shape[axis]
             if new == old:
